@@ -30,7 +30,304 @@ type iterUnder struct {
 	it       graph.Iterator
 	item     func() (int64, bool) // key of the current item, false if the item is nil
 	slice    func() []int64       // keys handed out by the slice form
+	sliceNil func() bool          // the slice form returned a nil slice (graph.Empty documents that)
+	of       func() []int64       // keys returned by the matching graph.XOf helper applied to the iterator
+	noLen    bool                 // the harness's adaptor answers Len with a negative value ("unknown")
 	universe map[int64]bool
+}
+
+// Variants of an iterator handed to the graph.XOf helpers (nodes_edges.go): "" is the iterator
+// itself; "hidden" wraps it in an adaptor that has only the methods of the iterator interface (no
+// slice form: the helper has to loop over Next); "neglen" additionally answers Len with -1, the
+// documented "number of items ... unknown" case; "negslicer" answers Len with -1 but keeps the
+// slice form.  The adaptors forward every other call.
+var iterVariants = []string{"", "hidden", "neglen", "negslicer"}
+
+type hidNodes struct {
+	graph.Nodes
+	neg bool
+}
+
+func (h hidNodes) Len() int {
+	if h.neg {
+		return -1
+	}
+	return h.Nodes.Len()
+}
+
+type negNodesSl struct {
+	hidNodes
+	sl graph.NodeSlicer
+}
+
+func (h negNodesSl) NodeSlice() []graph.Node { return h.sl.NodeSlice() }
+
+type hidEdges struct {
+	graph.Edges
+	neg bool
+}
+
+func (h hidEdges) Len() int {
+	if h.neg {
+		return -1
+	}
+	return h.Edges.Len()
+}
+
+type negEdgesSl struct {
+	hidEdges
+	sl graph.EdgeSlicer
+}
+
+func (h negEdgesSl) EdgeSlice() []graph.Edge { return h.sl.EdgeSlice() }
+
+type hidWEdges struct {
+	graph.WeightedEdges
+	neg bool
+}
+
+func (h hidWEdges) Len() int {
+	if h.neg {
+		return -1
+	}
+	return h.WeightedEdges.Len()
+}
+
+type negWEdgesSl struct {
+	hidWEdges
+	sl graph.WeightedEdgeSlicer
+}
+
+func (h negWEdgesSl) WeightedEdgeSlice() []graph.WeightedEdge { return h.sl.WeightedEdgeSlice() }
+
+type hidLines struct {
+	graph.Lines
+	neg bool
+}
+
+func (h hidLines) Len() int {
+	if h.neg {
+		return -1
+	}
+	return h.Lines.Len()
+}
+
+type negLinesSl struct {
+	hidLines
+	sl graph.LineSlicer
+}
+
+func (h negLinesSl) LineSlice() []graph.Line { return h.sl.LineSlice() }
+
+type hidWLines struct {
+	graph.WeightedLines
+	neg bool
+}
+
+func (h hidWLines) Len() int {
+	if h.neg {
+		return -1
+	}
+	return h.WeightedLines.Len()
+}
+
+type negWLinesSl struct {
+	hidWLines
+	sl graph.WeightedLineSlicer
+}
+
+func (h negWLinesSl) WeightedLineSlice() []graph.WeightedLine { return h.sl.WeightedLineSlice() }
+
+// setNodes .. setWLines bind an iterator (wrapped as the variant demands) and the matching helper.
+// They return false when the variant does not exist for the iterator (no slice form to keep).
+func (u *iterUnder) setNodes(it graph.Nodes, variant string) bool {
+	sl, hasSl := it.(graph.NodeSlicer)
+	switch variant {
+	case "hidden":
+		it = hidNodes{it, false}
+	case "neglen":
+		it = hidNodes{it, true}
+	case "negslicer":
+		if !hasSl {
+			return false
+		}
+		it = negNodesSl{hidNodes{it, true}, sl}
+	}
+	u.noLen = variant == "neglen" || variant == "negslicer"
+	u.it = it
+	u.item = func() (int64, bool) {
+		nd := it.Node()
+		if nd == nil {
+			return 0, false
+		}
+		return nd.ID(), true
+	}
+	keys := func(ns []graph.Node) []int64 {
+		var ks []int64
+		for _, nd := range ns {
+			ks = append(ks, nd.ID())
+		}
+		return ks
+	}
+	if s, ok := it.(graph.NodeSlicer); ok {
+		var last []graph.Node
+		u.slice = func() []int64 { last = s.NodeSlice(); return keys(last) }
+		u.sliceNil = func() bool { return last == nil }
+	}
+	u.of = func() []int64 { return keys(graph.NodesOf(it)) }
+	return true
+}
+
+func (u *iterUnder) setEdges(it graph.Edges, key func(graph.Edge) int64, variant string) bool {
+	sl, hasSl := it.(graph.EdgeSlicer)
+	switch variant {
+	case "hidden":
+		it = hidEdges{it, false}
+	case "neglen":
+		it = hidEdges{it, true}
+	case "negslicer":
+		if !hasSl {
+			return false
+		}
+		it = negEdgesSl{hidEdges{it, true}, sl}
+	}
+	u.noLen = variant == "neglen" || variant == "negslicer"
+	u.it = it
+	u.item = func() (int64, bool) {
+		e := it.Edge()
+		if e == nil {
+			return 0, false
+		}
+		return key(e), true
+	}
+	keys := func(es []graph.Edge) []int64 {
+		var ks []int64
+		for _, e := range es {
+			ks = append(ks, key(e))
+		}
+		return ks
+	}
+	if s, ok := it.(graph.EdgeSlicer); ok {
+		var last []graph.Edge
+		u.slice = func() []int64 { last = s.EdgeSlice(); return keys(last) }
+		u.sliceNil = func() bool { return last == nil }
+	}
+	u.of = func() []int64 { return keys(graph.EdgesOf(it)) }
+	return true
+}
+
+func (u *iterUnder) setWEdges(it graph.WeightedEdges, key func(graph.WeightedEdge) int64, variant string) bool {
+	sl, hasSl := it.(graph.WeightedEdgeSlicer)
+	switch variant {
+	case "hidden":
+		it = hidWEdges{it, false}
+	case "neglen":
+		it = hidWEdges{it, true}
+	case "negslicer":
+		if !hasSl {
+			return false
+		}
+		it = negWEdgesSl{hidWEdges{it, true}, sl}
+	}
+	u.noLen = variant == "neglen" || variant == "negslicer"
+	u.it = it
+	u.item = func() (int64, bool) {
+		e := it.WeightedEdge()
+		if e == nil {
+			return 0, false
+		}
+		return key(e), true
+	}
+	keys := func(es []graph.WeightedEdge) []int64 {
+		var ks []int64
+		for _, e := range es {
+			ks = append(ks, key(e))
+		}
+		return ks
+	}
+	if s, ok := it.(graph.WeightedEdgeSlicer); ok {
+		var last []graph.WeightedEdge
+		u.slice = func() []int64 { last = s.WeightedEdgeSlice(); return keys(last) }
+		u.sliceNil = func() bool { return last == nil }
+	}
+	u.of = func() []int64 { return keys(graph.WeightedEdgesOf(it)) }
+	return true
+}
+
+func (u *iterUnder) setLines(it graph.Lines, variant string) bool {
+	sl, hasSl := it.(graph.LineSlicer)
+	switch variant {
+	case "hidden":
+		it = hidLines{it, false}
+	case "neglen":
+		it = hidLines{it, true}
+	case "negslicer":
+		if !hasSl {
+			return false
+		}
+		it = negLinesSl{hidLines{it, true}, sl}
+	}
+	u.noLen = variant == "neglen" || variant == "negslicer"
+	u.it = it
+	u.item = func() (int64, bool) {
+		l := it.Line()
+		if l == nil {
+			return 0, false
+		}
+		return l.ID(), true
+	}
+	keys := func(ls []graph.Line) []int64 {
+		var ks []int64
+		for _, l := range ls {
+			ks = append(ks, l.ID())
+		}
+		return ks
+	}
+	if s, ok := it.(graph.LineSlicer); ok {
+		var last []graph.Line
+		u.slice = func() []int64 { last = s.LineSlice(); return keys(last) }
+		u.sliceNil = func() bool { return last == nil }
+	}
+	u.of = func() []int64 { return keys(graph.LinesOf(it)) }
+	return true
+}
+
+func (u *iterUnder) setWLines(it graph.WeightedLines, variant string) bool {
+	sl, hasSl := it.(graph.WeightedLineSlicer)
+	switch variant {
+	case "hidden":
+		it = hidWLines{it, false}
+	case "neglen":
+		it = hidWLines{it, true}
+	case "negslicer":
+		if !hasSl {
+			return false
+		}
+		it = negWLinesSl{hidWLines{it, true}, sl}
+	}
+	u.noLen = variant == "neglen" || variant == "negslicer"
+	u.it = it
+	u.item = func() (int64, bool) {
+		l := it.WeightedLine()
+		if l == nil {
+			return 0, false
+		}
+		return l.ID(), true
+	}
+	keys := func(ls []graph.WeightedLine) []int64 {
+		var ks []int64
+		for _, l := range ls {
+			ks = append(ks, l.ID())
+		}
+		return ks
+	}
+	if s, ok := it.(graph.WeightedLineSlicer); ok {
+		var last []graph.WeightedLine
+		u.slice = func() []int64 { last = s.WeightedLineSlice(); return keys(last) }
+		u.sliceNil = func() bool { return last == nil }
+	}
+	u.of = func() []int64 { return keys(graph.WeightedLinesOf(it)) }
+	return true
 }
 
 func nodeID(i int) int64 { return int64(7*i - 9) } // negative, zero-free, gapped ids
@@ -42,8 +339,39 @@ func iterKinds() []string {
 		"OrderedLines", "OrderedWeightedLines", "Lines", "WeightedLines"}
 }
 
-func buildIter(kind string, n int) *iterUnder {
-	u := &iterUnder{universe: map[int64]bool{}}
+// emptyKinds are graph.Empty taken as each of the five iterator interfaces it implements.
+func emptyKinds() []string {
+	return []string{"Empty/Nodes", "Empty/Edges", "Empty/WeightedEdges", "Empty/Lines", "Empty/WeightedLines"}
+}
+
+// buildIter builds the iterator named kind ("Type" or "Type+variant", see iterVariants) over n items.
+// It returns nil when the kind is unknown and ok=false when the kind does not exist in this variant
+// or for this n.
+func buildIter(kind string, n int) (u *iterUnder, ok bool) {
+	variant := ""
+	if i := strings.IndexByte(kind, '+'); i >= 0 {
+		kind, variant = kind[:i], kind[i+1:]
+	}
+	u = &iterUnder{universe: map[int64]bool{}}
+	if strings.HasPrefix(kind, "Empty/") {
+		// graph.Empty: "an empty set of nodes, edges or lines"
+		if n != 0 {
+			return u, false
+		}
+		switch kind {
+		case "Empty/Nodes":
+			return u, u.setNodes(graph.Empty, variant)
+		case "Empty/Edges":
+			return u, u.setEdges(graph.Empty, func(graph.Edge) int64 { return -1 }, variant)
+		case "Empty/WeightedEdges":
+			return u, u.setWEdges(graph.Empty, func(graph.WeightedEdge) int64 { return -1 }, variant)
+		case "Empty/Lines":
+			return u, u.setLines(graph.Empty, variant)
+		case "Empty/WeightedLines":
+			return u, u.setWLines(graph.Empty, variant)
+		}
+		return nil, false
+	}
 	nodes := map[int64]graph.Node{}
 	var nodeList []graph.Node
 	for i := 0; i < n; i++ {
@@ -60,51 +388,35 @@ func buildIter(kind string, n int) *iterUnder {
 		extra[nodeID(i)] = simple.Node(nodeID(i))
 	}
 	hub := simple.Node(1000)
-	nodeIt := func(it graph.Nodes) {
-		u.it = it
-		u.item = func() (int64, bool) {
-			nd := it.Node()
-			if nd == nil {
-				return 0, false
-			}
-			return nd.ID(), true
-		}
-		if sl, ok := it.(graph.NodeSlicer); ok {
-			u.slice = func() []int64 {
-				var ks []int64
-				for _, nd := range sl.NodeSlice() {
-					ks = append(ks, nd.ID())
-				}
-				return ks
-			}
-		}
+	nodeIt := func(it graph.Nodes) bool {
 		for k := range nodes {
 			u.universe[k] = true
 		}
+		return u.setNodes(it, variant)
 	}
 	switch kind {
 	case "OrderedNodes":
-		nodeIt(iterator.NewOrderedNodes(nodeList))
+		ok = nodeIt(iterator.NewOrderedNodes(nodeList))
 	case "ImplicitNodes":
 		it := iterator.NewImplicitNodes(5, 5+n, func(id int) graph.Node { return simple.Node(id) })
-		nodeIt(it)
+		ok = nodeIt(it)
 		u.universe = map[int64]bool{}
 		for i := 5; i < 5+n; i++ {
 			u.universe[int64(i)] = true
 		}
 	case "Nodes":
-		nodeIt(iterator.NewNodes(nodes))
+		ok = nodeIt(iterator.NewNodes(nodes))
 	case "LazyOrderedNodes":
-		nodeIt(iterator.NewLazyOrderedNodes(nodes))
+		ok = nodeIt(iterator.NewLazyOrderedNodes(nodes))
 	case "NodesByEdge", "LazyOrderedNodesByEdge":
 		edges := map[int64]graph.Edge{}
 		for k, nd := range nodes {
 			edges[k] = simple.Edge{F: hub, T: nd}
 		}
 		if kind == "NodesByEdge" {
-			nodeIt(iterator.NewNodesByEdge(extra, edges))
+			ok = nodeIt(iterator.NewNodesByEdge(extra, edges))
 		} else {
-			nodeIt(iterator.NewLazyOrderedNodesByEdge(extra, edges))
+			ok = nodeIt(iterator.NewLazyOrderedNodesByEdge(extra, edges))
 		}
 	case "NodesByWeightedEdge", "LazyOrderedNodesByWeightedEdge":
 		edges := map[int64]graph.WeightedEdge{}
@@ -112,9 +424,9 @@ func buildIter(kind string, n int) *iterUnder {
 			edges[k] = simple.WeightedEdge{F: hub, T: nd, W: 2}
 		}
 		if kind == "NodesByWeightedEdge" {
-			nodeIt(iterator.NewNodesByWeightedEdge(extra, edges))
+			ok = nodeIt(iterator.NewNodesByWeightedEdge(extra, edges))
 		} else {
-			nodeIt(iterator.NewLazyOrderedNodesByWeightedEdge(extra, edges))
+			ok = nodeIt(iterator.NewLazyOrderedNodesByWeightedEdge(extra, edges))
 		}
 	case "NodesByLines", "LazyOrderedNodesByLines":
 		lines := map[int64]map[int64]graph.Line{}
@@ -122,9 +434,9 @@ func buildIter(kind string, n int) *iterUnder {
 			lines[k] = map[int64]graph.Line{0: multi.Line{F: hub, T: nd, UID: 0}, 1: multi.Line{F: hub, T: nd, UID: 1}}
 		}
 		if kind == "NodesByLines" {
-			nodeIt(iterator.NewNodesByLines(extra, lines))
+			ok = nodeIt(iterator.NewNodesByLines(extra, lines))
 		} else {
-			nodeIt(iterator.NewLazyOrderedNodesByLines(extra, lines))
+			ok = nodeIt(iterator.NewLazyOrderedNodesByLines(extra, lines))
 		}
 	case "NodesByWeightedLines", "LazyOrderedNodesByWeightedLines":
 		lines := map[int64]map[int64]graph.WeightedLine{}
@@ -132,9 +444,9 @@ func buildIter(kind string, n int) *iterUnder {
 			lines[k] = map[int64]graph.WeightedLine{3: multi.WeightedLine{F: hub, T: nd, W: 1, UID: 3}}
 		}
 		if kind == "NodesByWeightedLines" {
-			nodeIt(iterator.NewNodesByWeightedLines(extra, lines))
+			ok = nodeIt(iterator.NewNodesByWeightedLines(extra, lines))
 		} else {
-			nodeIt(iterator.NewLazyOrderedNodesByWeightedLines(extra, lines))
+			ok = nodeIt(iterator.NewLazyOrderedNodesByWeightedLines(extra, lines))
 		}
 	case "OrderedEdges":
 		var es []graph.Edge
@@ -142,7 +454,6 @@ func buildIter(kind string, n int) *iterUnder {
 			es = append(es, simple.Edge{F: hub, T: nd})
 			u.universe[int64(i)] = true
 		}
-		it := iterator.NewOrderedEdges(es)
 		key := func(e graph.Edge) int64 {
 			for i, nd := range nodeList {
 				if e.To().ID() == nd.ID() {
@@ -151,43 +462,14 @@ func buildIter(kind string, n int) *iterUnder {
 			}
 			return -1
 		}
-		u.it = it
-		u.item = func() (int64, bool) {
-			e := it.Edge()
-			if e == nil {
-				return 0, false
-			}
-			return key(e), true
-		}
-		u.slice = func() []int64 {
-			var ks []int64
-			for _, e := range it.EdgeSlice() {
-				ks = append(ks, key(e))
-			}
-			return ks
-		}
+		ok = u.setEdges(iterator.NewOrderedEdges(es), key, variant)
 	case "OrderedWeightedEdges":
 		var es []graph.WeightedEdge
 		for i, nd := range nodeList {
 			es = append(es, simple.WeightedEdge{F: hub, T: nd, W: float64(i)})
 			u.universe[int64(i)] = true
 		}
-		it := iterator.NewOrderedWeightedEdges(es)
-		u.it = it
-		u.item = func() (int64, bool) {
-			e := it.WeightedEdge()
-			if e == nil {
-				return 0, false
-			}
-			return int64(e.Weight()), true
-		}
-		u.slice = func() []int64 {
-			var ks []int64
-			for _, e := range it.WeightedEdgeSlice() {
-				ks = append(ks, int64(e.Weight()))
-			}
-			return ks
-		}
+		ok = u.setWEdges(iterator.NewOrderedWeightedEdges(es), func(e graph.WeightedEdge) int64 { return int64(e.Weight()) }, variant)
 	case "OrderedLines", "Lines":
 		var ls []graph.Line
 		lm := map[int64]graph.Line{}
@@ -197,30 +479,10 @@ func buildIter(kind string, n int) *iterUnder {
 			lm[l.UID] = l
 			u.universe[l.UID] = true
 		}
-		var it interface {
-			graph.Iterator
-			Line() graph.Line
-			LineSlice() []graph.Line
-		}
 		if kind == "OrderedLines" {
-			it = iterator.NewOrderedLines(ls)
+			ok = u.setLines(iterator.NewOrderedLines(ls), variant)
 		} else {
-			it = iterator.NewLines(lm)
-		}
-		u.it = it
-		u.item = func() (int64, bool) {
-			l := it.Line()
-			if l == nil {
-				return 0, false
-			}
-			return l.ID(), true
-		}
-		u.slice = func() []int64 {
-			var ks []int64
-			for _, l := range it.LineSlice() {
-				ks = append(ks, l.ID())
-			}
-			return ks
+			ok = u.setLines(iterator.NewLines(lm), variant)
 		}
 	case "OrderedWeightedLines", "WeightedLines":
 		var ls []graph.WeightedLine
@@ -231,44 +493,34 @@ func buildIter(kind string, n int) *iterUnder {
 			lm[l.UID] = l
 			u.universe[l.UID] = true
 		}
-		var it interface {
-			graph.Iterator
-			WeightedLine() graph.WeightedLine
-			WeightedLineSlice() []graph.WeightedLine
-		}
 		if kind == "OrderedWeightedLines" {
-			it = iterator.NewOrderedWeightedLines(ls)
+			ok = u.setWLines(iterator.NewOrderedWeightedLines(ls), variant)
 		} else {
-			it = iterator.NewWeightedLines(lm)
-		}
-		u.it = it
-		u.item = func() (int64, bool) {
-			l := it.WeightedLine()
-			if l == nil {
-				return 0, false
-			}
-			return l.ID(), true
-		}
-		u.slice = func() []int64 {
-			var ks []int64
-			for _, l := range it.WeightedLineSlice() {
-				ks = append(ks, l.ID())
-			}
-			return ks
+			ok = u.setWLines(iterator.NewWeightedLines(lm), variant)
 		}
 	default:
-		return nil
+		return nil, false
 	}
-	return u
+	return u, ok
 }
 
-var opName = map[int]string{1: "Next", 2: "Len", 3: "Reset", 4: "Slice", 5: "Item"}
+var opName = map[int]string{1: "Next", 2: "Len", 3: "Reset", 4: "Slice", 5: "Item", 8: "Of"}
 
-// runIter replays one history on one iterator and returns the first disagreement.
-func runIter(kind string, c *iterCase) (what, msg string) {
-	u := buildIter(kind, c.N)
+// runIter replays one history on one iterator and returns the first disagreement; applies = false:
+// the history (or the kind, for this n) does not apply to this iterator, nothing was run.
+func runIter(kind string, c *iterCase) (what, msg string, applies bool) {
+	u, ok := buildIter(kind, c.N)
 	if u == nil {
-		return "unknown-kind", kind
+		return "unknown-kind", kind, true
+	}
+	if !ok {
+		return "", "", false
+	}
+	isEmpty := strings.HasPrefix(kind, "Empty/")
+	for _, st := range c.H {
+		if st[0] == 4 && u.slice == nil {
+			return "", "", false // no slice form: the history does not apply to this type
+		}
 	}
 	given := map[int64]bool{}
 	var last int64
@@ -291,53 +543,108 @@ func runIter(kind string, c *iterCase) (what, msg string) {
 		case 1:
 			got := u.it.Next()
 			if got != (ans == 1) {
-				return "Next", fmt.Sprintf("%s: Next() = %v, the contract demands %v", at, got, ans == 1)
+				return "Next", fmt.Sprintf("%s: Next() = %v, the contract demands %v", at, got, ans == 1), true
 			}
 			if got {
 				k, ok := u.item()
 				if !ok {
-					return "Item-nil", fmt.Sprintf("%s: item is nil after Next() returned true", at)
+					return "Item-nil", fmt.Sprintf("%s: item is nil after Next() returned true", at), true
 				}
 				if e := hand(k); e != "" {
-					return "Next-item", at + ": " + e
+					return "Next-item", at + ": " + e, true
 				}
 				last = k
+			} else if isEmpty {
+				// Next "returns whether the next call to the item method will return a non-nil item"
+				if _, ok := u.item(); ok {
+					return "Item-not-nil", fmt.Sprintf("%s: graph.Empty hands out a non-nil item", at), true
+				}
 			}
 		case 2:
-			if got := u.it.Len(); got != ans {
-				return "Len", fmt.Sprintf("%s: Len() = %d, the contract demands %d", at, got, ans)
+			// (an adaptor of the harness that reports an unknown length answers for itself)
+			if got := u.it.Len(); got != ans && !u.noLen {
+				return "Len", fmt.Sprintf("%s: Len() = %d, the contract demands %d", at, got, ans), true
 			}
 		case 3:
 			u.it.Reset()
 			given = map[int64]bool{}
-		case 4:
-			if u.slice == nil {
-				return "", "" // no slice form: the history does not apply to this type
+		case 4, 8:
+			name, f := "the slice form", u.slice
+			if op == 8 {
+				name, f = "the graph.XOf helper", u.of
 			}
-			ks := u.slice()
+			ks := f()
 			if len(ks) != ans {
-				return "Slice-len", fmt.Sprintf("%s: the slice form returned %d items, %d remain", at, len(ks), ans)
+				return opName[op] + "-len", fmt.Sprintf("%s: %s returned %d items, %d remain", at, name, len(ks), ans), true
 			}
 			for _, k := range ks {
 				if e := hand(k); e != "" {
-					return "Slice-item", at + ": " + e
+					return opName[op] + "-item", at + ": " + e, true
 				}
+			}
+			if op == 4 && isEmpty && !u.sliceNil() {
+				return "Slice-not-nil", fmt.Sprintf("%s: the slice form of graph.Empty returned a non-nil slice", at), true
 			}
 		case 5:
 			k, ok := u.item()
 			if !ok || k != last {
-				return "Item", fmt.Sprintf("%s: current item is (%d,%v), Next handed out %d", at, k, ok, last)
+				return "Item", fmt.Sprintf("%s: current item is (%d,%v), Next handed out %d", at, k, ok, last), true
 			}
 		}
 		if len(given) != pos {
-			return "count", fmt.Sprintf("%s: %d distinct items handed out since the last Reset, the contract demands %d", at, len(given), pos)
+			return "count", fmt.Sprintf("%s: %d distinct items handed out since the last Reset, the contract demands %d", at, len(given), pos), true
 		}
 	}
-	return "", ""
+	return "", "", true
+}
+
+// nilOf passes a nil iterator to each helper: "It is safe to pass a nil Nodes to NodesOf" (and the
+// same for the other four); there is nothing it could return.
+func nilOf(sum *core.Summary) {
+	for name, f := range map[string]func() int{
+		"NodesOf":         func() int { return len(graph.NodesOf(nil)) },
+		"EdgesOf":         func() int { return len(graph.EdgesOf(nil)) },
+		"WeightedEdgesOf": func() int { return len(graph.WeightedEdgesOf(nil)) },
+		"LinesOf":         func() int { return len(graph.LinesOf(nil)) },
+		"WeightedLinesOf": func() int { return len(graph.WeightedLinesOf(nil)) },
+	} {
+		sum.Cases++
+		var n int
+		o := core.Call(func() { n = f() })
+		if o.Panicked {
+			sum.Fail("graph:"+name+":nil-panic", name+"(nil) panicked: "+o.Text, iterCase{Kind: "nil"})
+		} else if n != 0 {
+			sum.Fail("graph:"+name+":nil-items", fmt.Sprintf("%s(nil) returned %d items", name, n), iterCase{Kind: "nil"})
+		}
+	}
+	sum.Count("nil_iterator_calls", 5)
 }
 
 func init() {
 	core.RegisterReplay("graph-iter", func(in *core.Lines, args []string, seed int64, sum *core.Summary) error {
+		// of=1: the histories call the graph.XOf helpers - every iterator type in every variant
+		// (plain, slice form hidden, unknown length), graph.Empty and a nil iterator
+		withOf := false
+		for _, a := range args {
+			if a == "of=1" {
+				withOf = true
+			}
+		}
+		kinds := iterKinds()
+		if withOf {
+			kinds = nil
+			for _, k := range append(iterKinds(), emptyKinds()...) {
+				for _, v := range iterVariants {
+					if v == "" {
+						kinds = append(kinds, k)
+					} else {
+						kinds = append(kinds, k+"+"+v)
+					}
+				}
+			}
+		}
+		didNil := false
+		nh := 0
 		for {
 			raw, ok := in.Next()
 			if !ok {
@@ -347,25 +654,36 @@ func init() {
 			if err := json.Unmarshal(raw, &c); err != nil {
 				return fmt.Errorf("bad case: %v", err)
 			}
-			kinds := iterKinds()
-			if c.Kind != "" {
-				kinds = []string{c.Kind}
+			ks := kinds
+			if c.Kind == "nil" || (withOf && !didNil && c.Kind == "") {
+				nilOf(sum)
+				didNil = true
+				if c.Kind == "nil" {
+					continue
+				}
 			}
-			for _, kind := range kinds {
-				sum.Cases++
-				nontrivial := false
-				for _, st := range c.H {
-					if st[0] == 1 && st[1] == 1 || st[0] == 4 && st[1] > 0 {
-						nontrivial = true
-					}
+			if c.Kind != "" {
+				ks = []string{c.Kind}
+			}
+			nontrivial := false
+			for _, st := range c.H {
+				if st[0] == 1 && st[1] == 1 || (st[0] == 4 || st[0] == 8) && st[1] > 0 {
+					nontrivial = true
 				}
-				if nontrivial {
-					sum.Nontrivial++
-				}
+			}
+			for _, kind := range ks {
 				cc := c
 				cc.Kind = kind
 				var what, msg string
-				o := core.Call(func() { what, msg = runIter(kind, &cc) })
+				applies := true
+				o := core.Call(func() { what, msg, applies = runIter(kind, &cc) })
+				if !applies {
+					continue
+				}
+				sum.Cases++
+				if nontrivial {
+					sum.Nontrivial++
+				}
 				if o.Panicked {
 					sum.Fail("graph:iterator:"+kind+":panic", fmt.Sprintf("n=%d history %v: %s", c.N, c.H, o.Text), cc)
 					continue
@@ -374,7 +692,7 @@ func init() {
 					sum.Fail("graph:iterator:"+kind+":"+what, msg, cc)
 				}
 			}
-			if sum.Cases%5000 == 1 {
+			if nh++; nh%4000 == 1 {
 				sum.Sample(c)
 			}
 		}
